@@ -1,6 +1,7 @@
 CONTRACTS = 'contracts.measures'
 F = 'AutoCarver/selectors/measures/qualitative_measures.py'
 MUTANTS = [
+ ('AutoCarver/carvers/binary_carver.py', '        tschuprowt = cramerv / sqrt(sqrt(n_mod_x - 1))', '        tschuprowt = cramerv / sqrt(n_mod_x - 1)', ['BinaryCarver._association_measure']),
  (F, '    dof_mods = sqrt((n_mod_x - 1) * (n_mod_y - 1))', '    dof_mods = (n_mod_x - 1) * (n_mod_y - 1)', ['tschuprowt_measure']),
  (F, '        tschuprowt = sqrt(chi2_statistic / n_obs / dof_mods)', '        tschuprowt = sqrt(chi2_statistic / dof_mods)', ['tschuprowt_measure']),
  (F, '    cramerv = sqrt(chi2_statistic / n_obs / (min_n_mod - 1))', '    cramerv = sqrt(chi2_statistic / n_obs / min_n_mod)', ['cramerv_measure']),
